@@ -228,3 +228,36 @@ func refExporter13(suite uint16, master, msgs, label, ctx []byte, n int) string 
 	}
 	return refExpandLabel(suite, unOK(d), []byte("exporter"), digest(hn, ctx), n)
 }
+
+// refSuiteLens: (MAC key, cipher key, fixed IV) lengths of the key block per suite, from the RFCs defining the suites.
+func refSuiteLens(id uint16) (mac, key, iv int, ok bool) {
+	in := func(l ...uint16) bool {
+		for _, x := range l {
+			if x == id {
+				return true
+			}
+		}
+		return false
+	}
+	switch {
+	case in(0x0005, 0x0066, 0xC007, 0xC011):
+		return 20, 16, 0, true
+	case in(0x000A, 0x0013, 0x0016, 0xC008, 0xC012):
+		return 20, 24, 8, true
+	case in(0x002F, 0x0032, 0x0033, 0xC009, 0xC013):
+		return 20, 16, 16, true
+	case in(0x0035, 0x0038, 0x0039, 0xC00A, 0xC014):
+		return 20, 32, 16, true
+	case in(0x003C, 0x0040, 0x0067, 0xC023, 0xC027):
+		return 32, 16, 16, true
+	case in(0x003D, 0x006A, 0x006B):
+		return 32, 32, 16, true
+	case in(0x009C, 0x009E, 0x00A2, 0xC02B, 0xC02F):
+		return 0, 16, 4, true
+	case in(0x009D, 0x009F, 0x00A3, 0xC02C, 0xC030):
+		return 0, 32, 4, true
+	case in(0xCCA8, 0xCCA9, 0xCCAA):
+		return 0, 32, 12, true
+	}
+	return 0, 0, 0, false
+}
